@@ -1,11 +1,12 @@
 (* C01 — combinators obey PEG semantics with pyparsing's whitespace rule.
    Statements only.  `peg` (Model/Peg.v) is the reference reading; `in_class` the boolean predicate delimiting the grammars
-   covered: token classes (all of Model/Core.v except LineStart/GoToColumn), And, MatchFirst, Opt (with or without default),
+   covered: token classes (all of Model/Core.v except LineStart/GoToColumn), And, MatchFirst, Each (whose required operands
+   cannot return empty: see C01_each_once_refuted below), Opt (with or without default),
    ZeroOrMore, OneOrMore (without stop_on), NotAny, FollowedBy, Group, Suppress, DelimitedList/TokenConverter wrappers, Forward
    (recursive grammars through the environment G), any whitespace sets that satisfy the constructor's inheritance rule
    (`child_ok`), no parse actions, no results names, no ignore expressions. *)
 From Coq Require Import List ZArith NArith Bool.
-From PP Require Import Model.Str Model.Results Model.Prog Model.Core Model.Entry Model.Peg Proofs.PegEquiv.
+From PP Require Import Model.Str Model.Results Model.Prog Model.Core Model.Entry Model.Peg Proofs.PegEquiv Proofs.EachPeg.
 Import ListNotations.
 
 (* For every environment of Forward bodies, element, input, location, fuel and do_actions flag: `_parse` called with
@@ -72,3 +73,84 @@ Example C01_instance :
   peg [ex_body] s 30 ex_root 0 = POk 9 [TList [TStr [40%N]; TStr [97%N]; TList [TStr [40%N]; TStr [98%N]; TStr [41%N]]; TStr [41%N]]]
   /\ proj (parse (step [ex_body]) 30 (mkargs ex_root s 0 true true)) = Some (peg [ex_body] s 30 ex_root 0).
 Proof. vm_compute. repeat split. Qed.
+
+(* ---- Each ('&') ----
+   Each is in the model (Model/Core.v `each_impl`, compared with the implementation by tools/props/c01.py), its reading
+   `peg_each` is a case of `peg`, and `in_class` contains the Each nodes none of whose required operands may return empty
+   (so C01_peg_equiv / C01_parse_string above cover them).  The restriction is necessary: the clause "'&' accepts its
+   operands in any order with each required one exactly once" does not hold of
+   Each.parseImpl for a required operand that can match the empty string: initExprGroups puts such an operand into
+   self.optionals as well as into self.required, so it is matched a second time.  Witness (the dump of
+   (Opt('a') + Opt('b')) & 'x' after streamline): on "aax" the faithful model, like the implementation, answers
+   ['a', 'a', 'x'], the operand Opt('a') + Opt('b') having been taken twice. *)
+Definition each_at (id : nat) (asl cp mi hm : bool) (sl : nat) : attrs :=
+  {| nid := id; rsname := None; modalr := true; aslist := asl; skipws := true; white := [9; 10; 13; 32]%N; callpre := cp;
+     mayidx := mi; custom := false; hasmsg := hm; acts := []; calltry := false; slen := sl |}.
+Definition ex_each : expr :=
+  Nary (each_at 1 true false true true 21) [] (NEach [(true, (0, 0)); (false, (2, 2))])
+    [ Nary (each_at 2 true true true true 13) [] NAnd
+        [ Enh (each_at 3 false true false false 5) [] (EOpt None) (Tok (each_at 4 false true false true 3) [] (KLit [97%N]));
+          Enh (each_at 5 false true false false 5) [] (EOpt None) (Tok (each_at 6 false true false true 3) [] (KLit [98%N])) ];
+      Tok (each_at 7 false true false true 3) [] (KLit [120%N]) ].
+
+Example C01_each_once_refuted :
+  exists r : pres,
+    drun (parse (step []) 30) (parse_string [32; 10; 9; 13]%N ex_each false [97; 97; 120]%N false) = Some (Entry.POk r)
+    /\ pr_as_list r = [TStr [97%N]; TStr [97%N]; TStr [120%N]].
+Proof. eexists. vm_compute. split; reflexivity. Qed.
+
+(* One level of the equivalence for '&', for EVERY semantics `rec` of the `_parse` calls (as C07's one-level theorems):
+   if every operand obeys a reading `prec` (success/failure, end position, token list, divergence, fuel), then an Each node
+   without parse actions / results name / ignorables obeys the reading `peg_each prec` of Model/Peg.v ("each required
+   operand exactly once, the content of an Opt at most once, of a ZeroOrMore any number of times, of a OneOrMore at least
+   once; tokens in the order taken").  This is the step of C01_peg_equiv for Each, without any assumption on the operands'
+   own structure (they may have names, actions, be outside `in_class`, as long as they obey `prec`).
+   _partial: required operands that may return empty are excluded (`each_opt2 ... = []`): for them the statement is false
+   (C01_each_once_refuted above). *)
+Theorem C01_each_reading_partial : forall (G : env) (s : str) (rec : args -> option outcome) (prec : expr -> nat -> res)
+  (Q : expr -> Prop),
+  (forall c, Q c -> forall loc d, proj (rec (mkargs c s loc d true)) = Some (prec c loc)) ->
+  (forall a i z b ne, Q (Rep a i z b ne) -> Q (snd (rep_operand (Rep a i z b ne) b))) ->
+  (forall a i dflt b, Q (Enh a i (EOpt dflt) b) -> Q b) ->
+  forall a info es, plain_attrs a = true -> Forall Q es ->
+  each_opt2 (each_zip es info) = [] ->
+  forall loc0 d pre,
+  proj (run rec (step G (mkargs (Nary a [] (NEach info) es) s loc0 d pre)))
+  = Some (peg_each s prec es info (if pre then eff s (Nary a [] (NEach info) es) loc0 else loc0)).
+Proof. exact each_reading. Qed.
+
+(* ... in particular for operands of the proved class, with the recursive parser itself and the reference reading `peg`
+   of the operands, at every fuel (an instance of C01_peg_equiv spelled out: such an Each node is in `in_class`) *)
+Theorem C01_each_over_class_partial : forall (G : env) (s : str), env_in_class G = true ->
+  forall f a info es, plain_attrs a = true -> forallb (in_class G) es = true ->
+  each_opt2 (each_zip es info) = [] ->
+  forall loc0 d pre,
+  proj (parse (step G) (S f) (mkargs (Nary a [] (NEach info) es) s loc0 d pre))
+  = Some (peg_each s (peg G s f) es info (if pre then eff s (Nary a [] (NEach info) es) loc0 else loc0)).
+Proof. exact each_reading_in_class. Qed.
+
+(* non-vacuity: Opt('a') & 'x' & ZeroOrMore('s') meets the hypotheses; on "s x a s" the reading is ['s','x','a','s'] *)
+Definition ex_each2_es : list expr :=
+  [ Enh (each_at 2 false true false false 5) [] (EOpt None) (Tok (each_at 3 false true false true 3) [] (KLit [97%N]));
+    Tok (each_at 4 false true false true 3) [] (KLit [120%N]);
+    Rep (each_at 5 true true false false 8) [] true (Tok (each_at 6 false true false true 3) [] (KLit [115%N])) None ].
+Definition ex_each2_info : list each_info := [(true, (0, 1)); (false, (2, 2)); (true, (4, 5))].
+Example C01_each_over_class_instance :
+  let s := [115; 32; 120; 32; 97; 32; 115]%N in
+  env_in_class [] = true /\ plain_attrs (each_at 1 true false true true 21) = true /\
+  forallb (in_class []) ex_each2_es = true /\ each_opt2 (each_zip ex_each2_es ex_each2_info) = [] /\
+  in_class [] (Nary (each_at 1 true false true true 21) [] (NEach ex_each2_info) ex_each2_es) = true /\
+  in_class [] ex_each = false /\
+  peg_each s (peg [] s 20) ex_each2_es ex_each2_info 0
+    = POk 7 [TStr [115%N]; TStr [120%N]; TStr [97%N]; TStr [115%N]] /\
+  proj (parse (step []) 21 (mkargs (Nary (each_at 1 true false true true 21) [] (NEach ex_each2_info) ex_each2_es) s 0 true true))
+    = Some (POk 7 [TStr [115%N]; TStr [120%N]; TStr [97%N]; TStr [115%N]]).
+Proof. vm_compute. repeat split. Qed.
+
+(* ex_each reads "x a" as expected, and reports a missing required operand by name *)
+Example C01_each_instance :
+  (exists r, drun (parse (step []) 30) (parse_string [32; 10; 9; 13]%N ex_each false [120; 32; 97]%N false) = Some (Entry.POk r)
+             /\ pr_as_list r = [TStr [120%N]; TStr [97%N]]) /\
+  drun (parse (step []) 30) (parse_string [32; 10; 9; 13]%N ex_each false [97; 98]%N false)
+    = Some (PErr (mkx XParse 0 (MMissing [7]) None)).
+Proof. split; [eexists; vm_compute; split; reflexivity|vm_compute; reflexivity]. Qed.
